@@ -40,8 +40,11 @@ type script struct {
 	Close    bool     `json:"closing_tag"`        // end with </stream:stream> (else bare EOF)
 	// after the application's Session.Close the remaining stanzas are sent
 	// without sentinel pings (a ping's reply cannot be written and ends Serve)
-	NoSentinelAfterClose bool   `json:"no_sentinel_after_close,omitempty"`
-	Steps                []step `json:"steps"`
+	NoSentinelAfterClose bool `json:"no_sentinel_after_close,omitempty"`
+	// HistClose-1 is the number of results after which the consumer of the
+	// tracked history query closes its iterator (0: it reads to the end)
+	HistClose int    `json:"hist_close,omitempty"`
+	Steps     []step `json:"steps"`
 }
 
 // ---------------------------------------------------------------------------
@@ -408,6 +411,15 @@ func genScript(r *rand.Rand, i int) *script {
 			st.Cuts, st.CancelAt = chooseSplit(r, st.Raw, 0)
 			st.Cancel = target
 		}
+		// the consumer of a tracked history query closes its iterator early
+		for _, st := range sc.Steps {
+			if st.K == "act" && st.Act == "hist.fetch" {
+				if r.Intn(3) == 0 {
+					sc.HistClose = 1 + r.Intn(3)
+				}
+				break
+			}
+		}
 		// the application closes its output stream while the peer keeps sending
 		if r.Intn(8) == 0 {
 			pos := r.Intn(len(sc.Steps) + 1)
@@ -460,26 +472,7 @@ func (e *env) runAct(name string) *action {
 	case "hist.fetch":
 		return e.start(name, "h1", func(ctx context.Context) (bool, error) {
 			it := e.hist.FetchIQ(ctx, history.Query{ID: "q1"}, stanza.IQ{ID: "h1", To: jid.MustParse(srvJID)}, e.s)
-			n := 0
-			for it.Next() {
-				n++
-				e.note("history_tracked")
-				r := it.Current()
-				if r != nil {
-					if e.readAll {
-						drainTokens(r)
-					} else {
-						// the first two tokens are buffered copies; everything after
-						// them is the live session reader, which Serve owns again once
-						// the handler has returned
-						r.Token()
-						r.Token()
-					}
-				}
-			}
-			err := it.Err()
-			_ = it.Result()
-			it.Close()
+			n, err := e.consumeHistory(it)
 			return n > 0, err
 		})
 	case "rcpt.send":
@@ -557,6 +550,57 @@ func (e *env) runAct(name string) *action {
 	return nil
 }
 
+// consumeHistory is the application's side of a tracked history query: it
+// takes every result (reading all of it, or only its first tokens) until the
+// iterator ends, or - histClose >= 0 - closes the iterator after that many
+// results, preferably while the next result is already on its way (Close is
+// documented to stop the iteration; later results go to the fallback handler).
+// It never just stops reading without closing.
+func (e *env) consumeHistory(it *history.Iter) (int, error) {
+	n := 0
+	for {
+		if e.histClose >= 0 && n >= e.histClose {
+			// bounded pause (coverage only): until the peer has sent a further
+			// result of this query and Serve is not sitting in a transport read
+			inFlight := false
+			for i := 0; i < 150 && !inFlight; i++ {
+				e.mu.Lock()
+				sent := e.histSent
+				e.mu.Unlock()
+				if sent > n && e.p.Lib.BlockedReads() == 0 && !e.served() {
+					inFlight = true
+					break
+				}
+				time.Sleep(200 * time.Microsecond)
+			}
+			if inFlight {
+				e.c.Count("history_iter_closed_early_with_result_in_flight", 1)
+			}
+			e.c.Count("history_iter_closed_early", 1)
+			it.Close()
+			e.c.Count("history_iter_early_close_returned", 1)
+			break
+		}
+		if !it.Next() {
+			break
+		}
+		n++
+		e.note("history_tracked")
+		if r := it.Current(); r != nil {
+			if e.readAll {
+				drainTokens(r)
+			} else {
+				r.Token()
+				r.Token()
+			}
+		}
+	}
+	err := it.Err()
+	_ = it.Result()
+	it.Close()
+	return n, err
+}
+
 // localClose is the application closing its output stream in mid-session.
 // Close runs on its own goroutine: while Serve is in the middle of a stanza
 // that it has started to answer it holds the output lock, and Close has to wait
@@ -591,6 +635,7 @@ func runScript(c *core.Case, sc *script) {
 		return
 	}
 	e.readAll = sc.ReadAll
+	e.histClose = sc.HistClose - 1
 	e.mu.Lock()
 	e.autoReply = func(req *xmltree.Node) string {
 		return fmt.Sprintf("<iq xmlns='jabber:client' type='result' id='%s' from='%s' to='%s'/>", escAttr(req.Attr("id")), peerJID, meJID)
